@@ -57,8 +57,9 @@ class Spec:
     """a layout to explore. keys are ints or symbol names ('a0', ...): distinct names are distinct
     non-modifier keys, distinct from every constant of the layout (asserted at the root)."""
 
-    def __init__(self, name, maps, N=3, depth=14, alphabet=None, note=''):
+    def __init__(self, name, maps, N=3, depth=14, alphabet=None, note='', no_foreign=False):
         self.name = name
+        self.no_foreign = no_foreign   # event keys restricted to the alphabet (no foreign keys)
         self.maps = maps            # list of dict(frm, to, rep, absb)
         self.N = N
         self.depth = depth
@@ -270,6 +271,8 @@ def expand(node, spec, layout_v, kinds=('Pressed', 'Released')):
             try:
                 mon.classify(it, k)
                 if restricted is not None and mon.isin(it, k, restricted):
+                    skip = True
+                elif spec.no_foreign and not mon.isin(it, k, spec.alphabet):
                     skip = True
                 elif kind == 'Pressed' and not mon.isin(it, k, mon.P) and len(mon.P) >= spec.N:
                     skip = True
@@ -596,6 +599,8 @@ def expand_pair(node, spec, layout_v, consts, N):
                     if it.keq(k, c):
                         break
                 if restricted is not None and any(it.keq(k, c) for c in restricted):
+                    skip = True
+                elif spec.no_foreign and not any(it.keq(k, c) for c in spec.alphabet):
                     skip = True
                 held = any(it.keq(k, x) for x in P)
                 if kind == 'Pressed' and not held:
